@@ -26,6 +26,23 @@ def optList (j : Json) (k : String) : Except String (Option (List String)) :=
   | .ok v => do let l ← fromJson? (α := List String) v; pure (some l)
   | .error _ => pure none
 
+/-- which full flag every kernel call of the driver loop returned (0 none, 1 `is_column_inds_full`, 2 `is_column_vals_full`):
+    a replay of the model's own `driverStep` from the state `readFile` starts in; coverage / correspondence glue only -/
+def flagTrace (file : List Nat) (w ncols : Nat) (im : List Nat) : Nat → DS → List Nat
+  | 0, _ => []
+  | n + 1, s =>
+    if decide (s.ci < file.length) && !s.stop then
+      match driverStep file w ncols im s with
+      | .ok s' =>
+        if s'.stop then [] else (if s'.indsFull then 1 else if s'.valsFull then 2 else 0) :: flagTrace file w ncols im n s'
+      | .error _ => []
+    else []
+
+def flagsOf (file : List Nat) (crs ncols : Nat) (offs im : List Nat) (imps : List Imp) (fuel : Nat) : List Nat :=
+  let crs2 := crs * Gen.Csv.CHUNK_ROW_FACTOR
+  let s0 : DS := { ci := 0, hasHeader := true, rows := 0, inds := zeros2 ncols (crs2 + 1), vals := List.replicate (offs.getLastD 0) 0, offs := offs, indsFull := false, valsFull := false, content := [], start := 0, imps := imps, calls := [], stop := false }
+  flagTrace file (crs2 * ncols) ncols im fuel s0
+
 def handle : Driver.Handler := fun op j =>
   match op with
   | "csv_kernel" => some do
@@ -49,7 +66,8 @@ def handle : Driver.Handler := fun op j =>
     let fuel ← Driver.get? Nat j "fuel"
     let imps := im.map (fun _ => ({ kind := .indexed } : Imp))
     pure <| Driver.outE (fun (o : DOut) =>
-      Json.mkObj [("rows", toJson o.rows), ("calls", toJson o.calls), ("cols", Json.arr (o.imps.map impJson).toArray)])
+      Json.mkObj [("rows", toJson o.rows), ("calls", toJson o.calls), ("cols", Json.arr (o.imps.map impJson).toArray),
+                  ("flags", toJson (flagsOf file crs ncols offs im imps fuel))])
       (readFile file crs ncols offs im imps fuel)
   | "csv_import" => some do
     let file ← Driver.get? (List Nat) j "file"
